@@ -12,7 +12,7 @@ def plan(tier, seed):
   w = [{'witness': 'all'}]
   if tier == 'quick':
     return w + [{'hseed': seed * 100003 + i, 'docs': 1, 'renames': 22} for i in range(15)]
-  return w + [{'hseed': seed * 100003 + 7000 + i, 'docs': 5, 'renames': 30} for i in range(47)]
+  return w + [{'hseed': seed * 100003 + 7000 + i, 'docs': 4, 'renames': 28} for i in range(31)]
 
 
 # ------------------------------------------------------------------------------------------------
@@ -152,6 +152,10 @@ class Built(object):
             self.doc.cref[sk + '.auto_' + key] = cref
             self.doc.templates[cref] = L.parse_template(u'SUM($group.‹%s.%s›)' % (src, key))
             self.doc.kinds[cref] = 'summary_auto_sum'
+      if sk + '.count' not in self.doc.cref:
+        # a source column called `count` takes the place of the row counter (count = SUM($group.count))
+        alt = [k for k in self.doc.cref if k.startswith(sk + '.auto_')] or [sk + '.group']
+        self.doc.cref[sk + '.count'] = self.doc.cref[sorted(alt)[0]]
       self.gen.summaries[sk]['cols']['count'] = 'int'
       self.summaries.append(sk)
     # summary formula columns; 'x0' exists in both summary tables under the same id (sisters)
@@ -252,7 +256,16 @@ def check_step(acc, built, S0, n0, action, path, tclass, reply, err, detail):
   acc.seen('paths', path)
   acc.seen('target_classes', tclass)
   if err is not None:
-    acc.violation('rename_raised', 'rename %r raised %s' % (action, err.text[:300]), detail)
+    S1, n1 = built.names()
+    unchanged = not snapshot.diff(S0, S1)
+    if unchanged and err.cls == 'AssertionError' and 'already exists in' in err.text and '_summary_' in err.text:
+      # open finding sister_column_rename_collision (deterministic witness in every run); the bundle was refused
+      # and the document is as before, so the sequence goes on
+      acc.count('known.sister_column_rename_collision')
+      acc.violation('sister_column_rename_collision', 'rename %r raised %s' % (action, err.text[:200]), detail)
+      acc.case(None)
+      return True
+    acc.violation('rename_raised', 'rename %r raised %s%s' % (action, err.text[:300], '' if unchanged else ' and changed the document'), detail)
     acc.case(None)
     return False
   S1, n1 = built.names()
